@@ -69,6 +69,8 @@ def install(eng):
     eng.pool_release = lambda st, item: pool_release(eng, st, item)
     eng.pool_acquire = lambda st, item: pool_acquire(eng, st, item)
     eng.on_empty_frames = lambda st: on_empty_frames(eng, st)
+    eng.sync_acquire = lambda st, key: sync_acquire(eng, st, key)
+    eng.sync_release = lambda st, key: sync_release(eng, st, key)
     eng.log_access = lambda st, ptr, write: log_access(eng, st, ptr, write)
 
 
@@ -331,3 +333,29 @@ def i_release(eng, st, fr, fn, args, ins):
         if owners.get(k) == me:
             del owners[k]
     st.ghost['owners'] = owners
+
+
+def sync_release(eng, st, key):
+    par = st.ghost.get('par')
+    if par is None or par.cur is None:
+        return
+    t = par.threads[par.cur]
+    c = dict(par.item_clock.get(key) or {})
+    for k, v in t.vc.items():
+        if c.get(k, 0) < v:
+            c[k] = v
+    par.item_clock[key] = c
+    t.vc[t.tid] = t.vc.get(t.tid, 0) + 1
+
+
+def sync_acquire(eng, st, key):
+    par = st.ghost.get('par')
+    if par is None or par.cur is None:
+        return
+    t = par.threads[par.cur]
+    c = par.item_clock.get(key)
+    if c:
+        for k, v in c.items():
+            if t.vc.get(k, 0) < v:
+                t.vc[k] = v
+    t.vc[t.tid] = t.vc.get(t.tid, 0) + 1
